@@ -195,6 +195,20 @@ func init() {
 		r, _ := runTree(a)
 		return r
 	}
+	reemit["tree"] = func(a []string) {
+		for i, x := range a {
+			if x == "R" {
+				a = a[:i]
+				break
+			}
+		}
+		res, files := runTree(a)
+		a = append(append([]string{}, a...), "R", fmt.Sprint(len(files)))
+		for _, f := range files {
+			a = append(a, hxs(f[0]), f[1])
+		}
+		fmt.Fprintf(out, "tree %s => %s\n", strings.Join(a, " "), res)
+	}
 	// stdin <data>: the CLI with no argument / "-" reading standard input vs the same bytes in a file
 	ops["stdin"] = func(a []string) string {
 		data := unhx(a[1])
@@ -313,7 +327,6 @@ func genC10(tier string, r *rng) {
 	emitTree(false, []string{"dang"}, []*node{bad("DG", "dang")})
 	emitTree(false, []string{"d"}, []*node{dir("d", f("a"))})
 	emitTree(true, []string{"d", "d"}, []*node{dir("d", f("a"))})
-	emitTree(true, []string{"d/s"}, []*node{dir("d", dir("s", f("y")))})
 	// depth beyond maxDepth (finding D23): a chain of 1002 directories with one file at the bottom
 	if tier == "thorough" {
 		n := f("deep")
